@@ -221,6 +221,7 @@ fn gen_rand(rng: &mut Rng, max_len: u64) -> Case {
         if ctrl && rng.chance(1, 2) {
             ts = rng.below((50 * per_s) as u64) as i64; // control requests carry the logger's clock
         }
+        let ts = ts.max(0); // (a reception time that ran backwards below the lifecycle start)
         let mlc = if missing && rng.chance(1, 4) { if rng.chance(1, 2) { 0 } else { 900 + lc } } else { lc };
         msgs.push(Msg { ecu: eg.name.clone(), lc: mlc, rx, ts, ctrl });
     }
@@ -311,18 +312,22 @@ fn gen_det(rng: &mut Rng, max_len: u64) -> Option<(Case, Vec<DltMessage>, evmap:
 }
 
 fn main() {
-    quiet_panics();
+    if std::env::var("VERIF_LOUD").is_err() {
+        quiet_panics();
+    }
     let a = Args::from_env();
     let mut t = Trace::create(&a.str("--out", "trace.ndjson"));
     let mut case = a.num("--first-case", 0);
     let mut rng = Rng::new(a.num("--seed", 1));
     let (mut replayed, mut fast, mut slow, mut drift, mut sampled) = (0u64, 0u64, 0u64, 0u64, 0u64);
     if let Some(f) = a.get("--scenarios") {
-        let scns = read_ndjson(f);
-        let target = a.num("--sample", 200).max(1);
-        let every = (scns.len() as u64 / target).max(1);
+        // streamed line by line (thorough emits > 10^6 scenarios)
+        use std::io::BufRead;
+        let rd = std::io::BufReader::new(std::fs::File::open(f).expect("open scenarios"));
+        let every = a.num("--sample-every", 1).max(1);
         let off = rng.below(every);
-        for (k, scn) in scns.iter().enumerate() {
+        let scns = rd.lines().map(|l| l.unwrap()).filter(|l| !l.trim().is_empty()).map(|l| serde_json::from_str::<Value>(&l).expect("json"));
+        for (k, scn) in scns.enumerate() {
             // (tick_us / base / kind are only present in replay files written by the check from a recorded case)
             let tick_us = scn["tick_us"].as_u64().unwrap_or(TICK_US);
             let c = Case {
